@@ -627,6 +627,33 @@ func runC11(c *core.Ctx) {
 		}
 	}
 
+	// 7b. GCM: every shortening of a valid cipher value from its end (a shortened tag is not a tag), every extension by 1..16 octets
+	c.Group("gcm-tail-truncations-and-extensions")
+	for _, n := range []int{0, 1, 16, 17, 33} {
+		cek := detKey(16, "cekgcm")
+		data, _ := xenc.EncryptBlock(xenc.AES128GCM, cek, []byte("NONCE0123456"), bytes.Repeat([]byte("G"), n), 0)
+		for delta := -len(data); delta <= 16; delta++ {
+			if delta == 0 {
+				continue
+			}
+			n, delta := n, delta
+			key := fmt.Sprintf("gcmlen/pt=%d/octets%+d", n, delta)
+			c.Case(key, func(t *core.T) {
+				t.NonTrivial()
+				var d []byte
+				if delta < 0 {
+					d = append([]byte{}, data[:len(data)+delta]...)
+				} else {
+					d = append(append([]byte{}, data...), bytes.Repeat([]byte{0}, delta)...)
+				}
+				el := xenc.EncryptedDataEl(xenc.AES128GCM, nil, d)
+				pt, err, pan := decryptTotal(t, "C11/gcmlen", cek, el)
+				t.Outcome(outcomeOf(err, pan))
+				mustErr(t, "C11/gcmlen/accepts-modified", pt, err, pan, el, fmt.Sprintf("cipher value changed by %+d octets at its end", delta))
+			})
+		}
+	}
+
 	// 8. the same malformed elements presented through the SP as an attacker-built EncryptedAssertion
 	c.Group("via-sp")
 	spUnder := harness.NewSP(harness.SPOpt{})
